@@ -141,7 +141,7 @@ def run(ctx):
                    "seeded nullable constructs; the compile verdict (RecursiveError vs compiled) is part of the compared result. "
                    "seeded grammars of 1-4 rules (2/3 with arbitrary rule references incl. self/mutual recursion and \"\" leaves, "
                    "depth<=4) x 3 inputs (derived, half of them mutated, at most 12 tokens: matching time is exponential in the input "
-                   "length for nested right recursion such as doc = +(\"<<=\" % doc) % RAWSTRING, on the implementation as on the model); each pair on which the model terminates is run on the "
+                   "length for nested right recursion such as doc = +(\"<<=\" %% doc) %% RAWSTRING, on the implementation as on the model); each pair on which the model terminates is run on the "
                    "implementation under a 5s watchdog. EXCLUDED from the seeded run, never silently: pairs on which the model "
                    "exceeds its fuel bound (no productivity certificate: nullable repetition body or left recursion not crossing a "
                    "Choice) — that class is represented by %d deterministic witnesses run once each in a child process "
